@@ -383,6 +383,57 @@ func runC06Proto(w *W) {
 			})
 		}
 	}
+	if currentTier == "thorough" && len(msg) <= 300 {
+		// exhaustive structural sweep of THIS message: every truncation offset, and every tag / length / varint
+		// mark x every boundary value, through a fixed set of entry points with the input flush against an
+		// unmapped page
+		run := func(bad []byte, how string) {
+			c.fault = "pb:" + how
+			in := w.AllocData(bad, simrt.PlaceGuardEnd)
+			c.lastByte, c.place, c.litNearEnd = "binary", "guard_end", "false"
+			b := in.B
+			c.guarded("p2j.Do", len(b), func() { pc.Do(ctx, desc, b) })
+			c.guarded("pb.Node.Children", len(b), func() {
+				var out []pgeneric.PathNode
+				v := pgeneric.NewRootValue(desc, b)
+				v.Children(&out, true, gopts, desc)
+			})
+			c.guarded("pb.Value.Interface", len(b), func() { pgeneric.NewRootValue(desc, b).Interface(gopts) })
+			c.guarded("pb.Value.MarshalTo", len(b), func() { pgeneric.NewRootValue(desc, b).MarshalTo(desc, gopts) })
+			c.guarded("pb.ReadAnyWithDesc", len(b), func() {
+				p := pbinary.BinaryProtocol{Buf: b}
+				p.ReadAnyWithDesc(desc, false, false, false, true)
+			})
+			in.Free()
+			w.Count("sweep_faults")
+		}
+		for cut := 0; cut < len(msg); cut++ {
+			run(msg[:cut], fmt.Sprintf("truncate@%d", cut))
+		}
+		for _, m := range ms {
+			old, _ := refVarint(msg[m.Off:])
+			var vals []uint64
+			switch m.Kind {
+			case 'L', 'V':
+				vals = append(append([]uint64{}, hugeVarints...), old+1, old+2)
+				if old > 0 {
+					vals = append(vals, old-1)
+				}
+			case 'T':
+				for wt := uint64(0); wt < 8; wt++ {
+					if wt != old&7 {
+						vals = append(vals, old&^7|wt)
+					}
+				}
+				vals = append(vals, old&7, uint64(1<<29-1)<<3|old&7, uint64(1<<32-1)<<3|old&7)
+			}
+			for _, v := range vals {
+				run(spliceBytes(msg, m.Off, m.Len, refAppendVarint(nil, v)), fmt.Sprintf("%c@%d=%#x", m.Kind, m.Off, v))
+			}
+			run(spliceBytes(msg, m.Off, m.Len, []byte{0xff, 0xff, 0xff, 0xff, 0xff, 0xff, 0xff, 0xff, 0xff, 0xff, 0xff}), fmt.Sprintf("overlong-varint@%d", m.Off))
+		}
+		w.Count("sweep_messages")
+	}
 	w.Sig(fmt.Sprintf("pb-faults%d", nfaults))
 	w.sample = map[string]interface{}{"proto": true, "msg_bytes": len(msg), "faults": nfaults, "last_fault": c.fault}
 }
